@@ -38,6 +38,38 @@ pub struct C18Case {
     /// batch: per element (unit index, power scale, failing)
     pub batch: Vec<(usize, f64, bool)>,
     pub hash_noise: usize,
+    /// also run once in a fresh process (other address-space layout, other process-wide
+    /// hash seeds, cold lazy statics) and compare the printed outputs character by character
+    #[serde(default)]
+    pub other_process: bool,
+}
+
+/// `vcheck c18-once <casefile>`: run the scenario once and print its complete output
+pub fn once_main(file: &str) -> i32 {
+    crate::engine::install_panic_hook();
+    let txt = std::fs::read_to_string(file).expect("case file");
+    let case: C18Case = serde_json::from_str(&txt).expect("case parses");
+    match catch(|| run_once(&case)) {
+        Ok(Ok(v)) => println!("OUTPUT {v}"),
+        Ok(Err(e)) => println!("ERR {}", e.replace('\n', " ")),
+        Err(p) => println!("PANIC {}", p.msg.replace('\n', " ")),
+    }
+    0
+}
+
+fn run_in_child(case: &C18Case) -> Option<String> {
+    let dir = std::path::Path::new(crate::engine::run::VERIF_ROOT).join("work").join("probe");
+    let _ = std::fs::create_dir_all(&dir);
+    let txt = serde_json::to_string(case).ok()?;
+    let f = dir.join(format!("c18-{}-{:016x}.json", std::process::id(), fnv64(&txt)));
+    std::fs::write(&f, &txt).ok()?;
+    let out = std::process::Command::new(crate::engine::run::self_exe()).args(["c18-once", f.to_str()?]).stderr(std::process::Stdio::null()).output().ok();
+    let _ = std::fs::remove_file(&f);
+    let out = out?;
+    if !out.status.success() {
+        return None;
+    }
+    String::from_utf8(out.stdout).ok().map(|s| s.trim().to_string())
 }
 
 fn ptrace(trace: &[(f64, f64)], scale: f64) -> PowerTrace {
@@ -341,7 +373,7 @@ impl C18 {
                 batch.push((g.idx(units.len()), Gen::round(g.f64(0.3, 1.0), 2), Some(i) == fail_at || g.bool(0.03)));
             }
         }
-        C18Case { kind, units, pdct: g.int(0, 1) as u8, trace, train, corridor, speed, batch, hash_noise: g.usize(0, 50) }
+        C18Case { kind, units, pdct: g.int(0, 1) as u8, trace, train, corridor, speed, batch, hash_noise: g.usize(0, 50), other_process: kind != 8 && g.bool(0.12) }
     }
 
     fn check(case: &C18Case, cx: &mut Ctx) {
@@ -395,6 +427,23 @@ impl C18 {
                 cx.fail(format!("C18|repeat|outputs-differ:{}", ["loco_sim", "consist_sim", "set_speed", "speed_limited", "est_times", "dispatch", "path_profile", "train_params"][case.kind as usize % 8]), format!("run {} on a fresh thread: {d}", rep + 2).chars().take(500).collect::<String>());
             }
         }
+        if case.other_process {
+            match run_in_child(case) {
+                Some(out) if out.starts_with("OUTPUT ") => {
+                    cx.label("also_run_in_another_process");
+                    let mine = first.to_string();
+                    if out["OUTPUT ".len()..] != mine {
+                        let theirs: Value = serde_json::from_str(&out["OUTPUT ".len()..]).unwrap_or(Value::Null);
+                        let d = first_diff(&first, &theirs, "").unwrap_or_else(|| "printed outputs differ".into());
+                        cx.fail(format!("C18|process|outputs-differ:{}", ["loco_sim", "consist_sim", "set_speed", "speed_limited", "est_times", "dispatch", "path_profile", "train_params"][case.kind as usize % 8]), format!("run in a fresh process: {d}").chars().take(500).collect::<String>());
+                    }
+                }
+                Some(out) if out.starts_with("ERR ") || out.starts_with("PANIC ") => {
+                    cx.fail("C18|process|fresh-process-fails-where-this-one-did-not", out.chars().take(300).collect::<String>());
+                }
+                _ => cx.label("other_process_unavailable"),
+            }
+        }
         let big = match case.kind {
             5 => case.corridor.as_ref().map(|c| c.trains.len() >= 3).unwrap_or(false),
             _ => true,
@@ -420,7 +469,7 @@ impl Property for C18 {
     }
     crate::typed_property!(C18, C18Case);
     fn rule(&self) -> String {
-        "scenario kind in {locomotive sim, consist sim, set-speed, speed-limited, make_est_times, run_dispatch (>= 3 trains), path profile build, train params / builder parts}: run three times on equal inputs, runs 2 and 3 on fresh threads (fresh per-thread hash keys, after a generated amount of hashing activity); the complete outputs (whole simulation objects with histories, est-time nets, timed paths) must be identical value by value; parallel batch: 1-12 different locomotive simulations (40 % with one inadmissible trace) walked serially and in rayon pools of 1,2,3,5,8,16 workers x 3 repetitions: every element == its solo walk, a failure must be reported with the index of an element that fails solo, every element is untouched or equal to its solo outcome and its input trace is unchanged. Non-trivial: batch with >= 3 distinct elements, dispatch with >= 3 trains, any other kind".into()
+        "scenario kind in {locomotive sim, consist sim, set-speed, speed-limited, make_est_times, run_dispatch (>= 3 trains), path profile build, train params / builder parts}: run three times on equal inputs, runs 2 and 3 on fresh threads (fresh per-thread hash keys, after a generated amount of hashing activity); the complete outputs (whole simulation objects with histories, est-time nets, timed paths) must be identical value by value; 12 % of these cases are additionally run once in a fresh process and the printed outputs compared character by character; parallel batch: 1-12 different locomotive simulations (40 % with one inadmissible trace) walked serially and in rayon pools of 1,2,3,5,8,16 workers x 3 repetitions: every element == its solo walk, a failure must be reported with the index of an element that fails solo, every element is untouched or equal to its solo outcome and its input trace is unchanged. Non-trivial: batch with >= 3 distinct elements, dispatch with >= 3 trains, any other kind".into()
     }
     fn assumptions(&self) -> Vec<String> {
         vec![
